@@ -118,7 +118,7 @@ def run(tier, seed):
             hook = None
             completed = cfg["P"]
             if interrupted:
-                stop_at = rnd.randint(1, cfg["P"] - 1)     # interrupt inside proposal `stop_at` (>= 1)
+                stop_at = rnd.choice([0, rnd.randint(0, cfg["P"] - 1), rnd.randint(1, cfg["P"] - 1)])     # interrupt inside proposal `stop_at` (0 included: nothing completed)
 
                 def hook(sampler, target, rr, stop_at=stop_at):
                     def fault(kind, k):
